@@ -3,6 +3,7 @@ package main
 // C16: Cmp is the total order of the exact values; Sign/Signbit/IsZero/IsInf agree.
 
 import (
+	"encoding/binary"
 	"fmt"
 	"sort"
 
@@ -48,11 +49,35 @@ func decorated(o *Opnd, kind int) *Dec {
 	return o.Build()
 }
 
+// viaGob builds o by decoding a hand-made (valid) gob payload, so that the mantissa words arrive exactly as written.
+func viaGob(o *Opnd) *Dec {
+	b := []byte{1, o.Mode<<5 | 1<<3 | 1<<1}
+	if o.Neg {
+		b[1] |= 1
+	}
+	b = binary.BigEndian.AppendUint32(b, o.Prec)
+	b = binary.BigEndian.AppendUint32(b, uint32(int32(o.Exp)))
+	for i := len(o.Words) - 1; i >= 0; i-- {
+		b = binary.BigEndian.AppendUint64(b, o.Words[i])
+	}
+	d := new(Dec)
+	if err := d.GobDecode(b); err != nil {
+		return nil
+	}
+	if m, _ := d.BitsExp(); len(m) != len(o.Words) {
+		return nil
+	}
+	return d
+}
+
 func cmpValues(tier string) []*cmpVal {
 	var os []*Opnd
 	os = append(os, DVals(2, 2, true, 34, 0)...)
 	if tier == "thorough" {
 		os = append(os, DVals(3, 1, true, 34, 0)...)
+		for _, v := range WVecs(3, S12) {
+			os = append(os, mkWords(false, v, 0, 0, 0), mkWords(true, v, 0, 0, 0), mkWords(false, append([]uint64{0}, v...), 0, 0, 0))
+		}
 	}
 	for _, v := range WVecs(3, S7) {
 		os = append(os, mkWords(false, v, 0, 0, 0), mkWords(true, v, 0, 0, 0))
@@ -86,6 +111,23 @@ func cmpValues(tier string) []*cmpVal {
 	vals := make([]*cmpVal, len(os))
 	for i, o := range os {
 		vals[i] = &cmpVal{o: o, d: decorated(o, i%4), desc: o.String()}
+		if o.Form == fFinite && len(o.Words) > 1 && o.Words[0] == 0 {
+			// a mantissa with a low zero word that did not go through the library's rounding:
+			// as it arrives from a gob stream, or after clearing the word through BitsExp
+			if i%2 == 0 {
+				if d := viaGob(o); d != nil {
+					vals[i].d, vals[i].desc = d, o.String()+"(via gob)"
+				}
+			} else {
+				nz := *o
+				nz.Words = append([]uint64{7}, o.Words[1:]...)
+				d := nz.Build()
+				if m, _ := d.BitsExp(); len(m) == len(o.Words) {
+					m[0] = 0
+					vals[i].d, vals[i].desc = d, o.String()+"(low word cleared through BitsExp)"
+				}
+			}
+		}
 		if got := Observe(vals[i].d).Val(); !got.Equal(o.V) {
 			panic(fmt.Sprintf("cmp: decoration changed the value of %s: %s", o, got))
 		}
@@ -129,7 +171,7 @@ func cmpLayers(tier string) []Layer {
 	layers = append(layers, Layer{
 		Name:   "O1-pairs",
 		Units:  n,
-		Bounds: fmt.Sprintf("all ordered pairs over %d values: ±D(2)×10^[-2..2], ±W(3,S7) plain / with an extra low zero word / with a differing lowest word, run-length strings, range-end exponents, ±0, ±Inf (also in variables that held 1, 1e-7, a 3-word value, 5e5 before); each value decorated (mode, larger precision, non-Exact accuracy from a real rounding)", n),
+		Bounds: fmt.Sprintf("all ordered pairs over %d values: ±D(2)×10^[-2..2], ±W(3,S7) plain / with an extra low zero word (built through SetBitsExp, through a gob payload, or by clearing the word through BitsExp) / with a differing lowest word, run-length strings, range-end exponents, ±0, ±Inf (also in variables that held 1, 1e-7, a 3-word value, 5e5 before); each value decorated (mode, larger precision, non-Exact accuracy from a real rounding)", n),
 		Run: func(c *Ctx, u int) {
 			vs := get()
 			x := vs[u]
